@@ -98,7 +98,7 @@ MInit ==
      \* ---- episode level
      fk      |-> "-", fcause |-> "-", fra |-> None, ft |-> 0,
      hard    |-> {},         \* hard stop conditions that hold for the current failure
-     nstrat  |-> 0, applied |-> None,
+     nstrat  |-> 0, applied |-> None, tstrat |-> 0,
      consumed|-> "-",        \* "-" | "ok" | "denied"
      retried |-> FALSE,      \* `retry` event seen in this episode
      hdec    |-> "-",        \* sleep-handler decision
@@ -196,13 +196,14 @@ HardSet(c, m, k, nf, t) ==
     \cup (IF k = "UNKNOWN" /\ c.maxUnk # None /\ nf[k] > c.maxUnk THEN {"MAX_UNKNOWN_ATTEMPTS"} ELSE {})
     \cup (IF t >= c.D THEN {"DEADLINE_EXCEEDED"} ELSE {})
 
-Failed(c, m, k, cause, ra, n) ==
+\* tc: the instant the classification was available (time may pass inside a classifier)
+Failed(c, m, k, cause, ra, n, tc) ==
     LET nf == [m.nfail EXCEPT ![k] = @ + 1] IN
-    [m EXCEPT !.phase = "failed", !.fk = k, !.fcause = cause, !.fra = ra, !.ft = m.invt1,
+    [m EXCEPT !.phase = "failed", !.fk = k, !.fcause = cause, !.fra = ra, !.ft = tc,
               !.nfail = nf, !.nonretry = @ \/ k \in NonRetry,
               !.lk = k, !.lcause = cause, !.lid = n,
               !.pk = m.lk, !.pcause = m.lcause, !.pid = m.lid,
-              !.hard = HardSet(c, m, k, nf, m.invt1)]
+              !.hard = HardSet(c, m, k, nf, tc)]
 
 OnRClassify(c, m, ev) ==
     LET m1 == Checks(m, <<
@@ -212,7 +213,7 @@ OnRClassify(c, m, ev) ==
           <<~m.cancelOn,                   "C13:cancellation-classified">>,
           <<~(m.abortOwn),                 "C13:work-after-abort-request">> >>)
     IN  IF ev.k = "none" THEN [m1 EXCEPT !.phase = "ok"]
-        ELSE Failed(c, m1, ev.k, "result", ev.ra, ev.n)
+        ELSE Failed(c, m1, ev.k, "result", ev.ra, ev.n, ev.t + ev.dur)
 
 OnClassify(c, m, ev) ==
     LET m1 == Checks(m, <<
@@ -220,13 +221,13 @@ OnClassify(c, m, ev) ==
                                            "C03:exception-classified-out-of-turn">>,
           <<~m.cancelOn,                   "C13:cancellation-classified">>,
           <<~m.abortReq,                   "C13:work-after-abort-request">> >>)
-    IN  Failed(c, m1, ev.k, "exception", ev.ra, ev.n)
+    IN  Failed(c, m1, ev.k, "exception", ev.ra, ev.n, ev.t + ev.dur)
 
 (***************************************************************************)
 (* strategy / budget                                                       *)
 (***************************************************************************)
 OnStrategy(c, m, ev) ==
-    LET rem == c.D - m.ft
+    LET rem == c.D - ev.t          \* the time remaining when the strategy is asked
         obs(x) == x # Unobs
         m1 == Checks(m, <<
           <<m.phase = "failed",                      "C05:strategy-called-outside-a-failure">>,
@@ -240,7 +241,7 @@ OnStrategy(c, m, ev) ==
           <<ev.cause = "?" \/ ev.cause = m.fcause,   "C05:strategy-cause">>,
           <<~m.abortReq,                             "C13:work-after-abort-request">>,
           <<~m.cancelOn,                             "C13:work-after-cancellation">> >>)
-    IN  [m1 EXCEPT !.nstrat = @ + 1, !.applied = Sanitise(ev.ret, rem)]
+    IN  [m1 EXCEPT !.nstrat = @ + 1, !.applied = Sanitise(ev.ret, rem), !.tstrat = ev.t]
 
 OnConsume(c, m, ev) ==
     LET m1 == Checks(m, <<
@@ -344,7 +345,9 @@ OnSleep(c, m, ev) ==
         full  == m.fullSleeps /\ (ev.t1 - ev.t >= ev.s)
         m1 == Checks(m, <<
           <<ev.us >= 0,                              "C02:negative-sleep">>,
-          <<ev.us <= (c.D - ev.t) * 15625,           "C02:sleep-longer-than-remaining-time">>,
+          \* "the time then remaining": when the delay was computed (hooks may take time after that)
+          <<ev.us <= (c.D - (IF m.nstrat > 0 THEN m.tstrat ELSE ev.t)) * 15625,
+                                                     "C02:sleep-longer-than-remaining-time">>,
           <<~full \/ ev.s < 0 \/ total <= c.D,       "C02:total-sleep-exceeds-deadline">>,
           <<m.phase = "failed" => ~(m.ft >= c.D),    "C02:backoff-after-failure-at-or-after-deadline">>,
           <<Granted(c, m) /\ m.retried,              "C03:sleep-without-permitted-retry">>,
